@@ -47,3 +47,21 @@ CLAIMS["C06"] = {
             "raised by external helpers are not modelled. md5 collision "
             "freedom assumed.",
 }
+
+CLAIMS["C03"] = {
+    "technique": "exhaustive abstract evaluation of the parsed box predicate "
+                 "over order types; def-use / set rules for the settings "
+                 "diff, conjunction operands, accumulator resets, polygon "
+                 "hash coverage, reset completeness",
+    "text": "The incremental filter update is split into structural "
+            "necessary conditions that hold for every history at once: the "
+            "settings diff sees removed keys and compares against a copy; "
+            "the parsed range predicate equals 'lo<=v<=hi after swap, "
+            "inactive iff min==max, NaN outside' on all weak orderings; the "
+            "conjunction has exactly the four operands; every accumulator "
+            "is rebuilt from all-True; the polygon cache key covers every "
+            "attribute the evaluation reads; reset clears every memo.",
+    "note": "Does not decide equality with a from-scratch evaluation on "
+            "arbitrary data, nor numpy semantics; reproducibility of the "
+            "event limit rests on C16's seeding rule.",
+}
